@@ -57,3 +57,11 @@ Proof.
   vm_compute in E. inversion E; subst; clear E.
   eexists _, _, _. split; [left; reflexivity|reflexivity].
 Qed.
+
+(* Layer A: stackscope's exception-table parser inverts CPython's writer, for all entry lists
+   with fields below 2^30 (the writer's own bound) *)
+Require Import M_ExcTable P_ExcTable.
+Theorem C01_exctable_roundtrip : forall es, Forall ok_ent es ->
+  parse_exception_table (enc_table es) = map ent_of_raw es.
+Proof. exact exctable_roundtrip. Qed.
+Print Assumptions C01_exctable_roundtrip.
